@@ -4612,7 +4612,7 @@ py_statements = [
             "{PyObject} * {py_var} ="
             "\t PyObject_New({PyObject}, &{PyTypeObject});",
 #                "if ({py_var} == {nullptr}) goto fail;",
-            "{py_var}->{PY_type_obj} = {cxx_addr}{cxx_var};",
+            "{py_var}->{PY_type_obj} = {cxx_nonconst_ptr};",
         ],
         object_created=True,
 #            post_call_capsule=[
